@@ -65,6 +65,9 @@ claim("C01","exploration","runtime monitor: differential oracle (refcodec + IDL 
 claim("C04","exploration","runtime monitor: pairwise path-agreement oracle (value-based vs streaming, both directions) over valid, evolved, mutated and truncated inputs under scripted read segmentation",
  "For every generated type, valid encodings, encodings with foreign fields, evil encodings, truncations and mutations are decoded through FromWire(Decode) and through Decode(stream) under several chunkings; acceptance by the value path implies acceptance and a bitwise-equal value on the stream path. Go values (valid and randomly nil-perturbed) must make both serialisers fail or produce encodings of the same value.",
  "no reference needed; inputs of the open C13 class are routed to C13", "DESIGN.md §5 C04")
+claim("C05","exploration","runtime monitor: reference-projection oracle over (writer schema, evolved reader schema) program pairs compiled by the real generator, plus foreign-field injection; both decode paths",
+ "Pairs of programs (W, R = W after random evolution steps) are generated by the real CLI and compiled; values of W encoded by the reference codec are decoded by R's generated code through FromWire and Decode(stream) and compared, accept/reject and value, with the reference projection of the bytes onto R's schema; valid encodings additionally get foreign fields of every type injected at every struct level and must decode to the original value.",
+ "a container field whose element wire type changed may read as unset or empty (statement silent); a union whose only member is such a field has no determined outcome", "DESIGN.md §5 C05")
 claim("C14","exploration","runtime monitor: equivalence-law checks plus an independent structural comparison over decoded triples (value, permuted re-encoding, single perturbation)",
  "Triples of decoded values per generated struct-like type: reflexivity, symmetry, transitivity, order-insensitivity for sets/maps, sensitivity to list order and presence, agreement with wire.ValuesAreEqual on the ToWire forms and with LKey equality of the logical values, no panic on nil receiver/argument.",
  "values free of NaN and duplicate-free after defaults, as the statement assumes", "DESIGN.md §5 C14")
